@@ -1,6 +1,8 @@
-(* C10, floor / ceil / round as the code computes them today: through f64.
-   BigRat::floor = from_f64(into_f64(self).floor()) (core/src/num/bigrat.rs),
-   BigUint::as_f64 (biguint.rs).  IEEE-754 binary64 arithmetic is modelled
+(* C10, floor / ceil / round.
+   Current code (fend 7d3085c): BigRat::round_to_integer, exact integer division
+   on the simplified fraction -- [q_round] below.
+   Before that commit: BigRat::floor = from_f64(into_f64(self).floor()), through
+   f64 -- kept here as [q_round_old] to document the repaired defect.  IEEE-754 binary64 arithmetic is modelled
    exactly and executably: a non-negative double is [FFin m e] (= m * 2^e),
    +inf or NaN; every operation computes the exact rational result and rounds
    it to nearest-even with [rnd] (53-bit significand, subnormals from 2^-1074,
@@ -150,17 +152,10 @@ Definition from_f64 (x : sf64) : brat :=
   let part2 := i / W in
   mkrat negative (of_N (part1 + part2 * (W - 1))) (Small (W - 1)).
 
-Definition q_round (mode : rmode) (q : brat) : res brat :=
+(* floor / ceil / round before 7d3085c *)
+Definition q_round_old (mode : rmode) (q : brat) : res brat :=
   do f <- into_f64 q; Ok (from_f64 (f_round mode f)).
 
-(* Complex::floor etc.: expect_real, then Real::floor = approximate().floor();
-   a multiple of pi goes through the numeric approximation of pi: None *)
-Definition c_round (mode : rmode) (c : cplx) : res (option brat) :=
-  do r <- expect_real c;
-  match r with
-  | RSimple q => do x <- q_round mode q; Ok (Some x)
-  | RPi _ => Ok None
-  end.
 
 (* ---------------- specification: exact rounding in Z ---------------- *)
 
@@ -180,7 +175,7 @@ Definition round_spec (mode : rmode) (q : brat) : Z :=
 Definition rat_is_Z (r : brat) (z : Z) : bool :=
   negb (dval r =? 0) && (rat_num_Z r =? z * Z.of_N (dval r))%Z.
 
-(* ---------------- the proposed repair: integer divmod ---------------- *)
+(* ---------------- BigRat::round_to_integer (7d3085c) ---------------- *)
 
 Definition round_core (mode : rmode) (neg : bool) (n d : N) : bool * N :=
   let k := n / d in
@@ -194,18 +189,33 @@ Definition round_core (mode : rmode) (neg : bool) (n d : N) : bool * N :=
   let v := if up then k + 1 else k in
   (neg && negb (v =? 0), v).
 
-Definition q_round_exact (mode : rmode) (q : brat) : res brat :=
+(* self = self.simplify()?; (quotient, remainder) = self.num.divmod(&self.den)?;
+   negative = sign == Negative && num != 0; has_remainder = remainder != 0;
+   at_least_half = remainder + remainder >= den;
+   floor: up iff negative && has_remainder; ceil: !negative && has_remainder;
+   round: at_least_half; sign Negative iff negative && quotient != 0; den = 1.
+   The quotient is a freshly computed integer: canonical representation. *)
+Definition q_round (mode : rmode) (q : brat) : res brat :=
   do s <- simplify q;
   if dval s =? 0 then Err EDivByZero
   else
     let '(sg, v) := round_core mode (rneg s && negb (nval s =? 0)) (nval s) (dval s) in
     Ok (mkrat sg (of_N v) (Small 1)).
 
-(* ---------------- classifier of the known defect ---------------- *)
+(* Complex::floor etc.: expect_real, then Real::floor = approximate().floor();
+   a multiple of pi goes through the numeric approximation of pi: None *)
+Definition c_round (mode : rmode) (c : cplx) : res (option brat) :=
+  do r <- expect_real c;
+  match r with
+  | RSimple q => do x <- q_round mode q; Ok (Some x)
+  | RPi _ => Ok None
+  end.
+
+(* ---------------- classifier of the repaired defect (documentation) ---------------- *)
 
 Definition is_small (b : buint) : bool := match b with Small _ => true | Large _ => false end.
 
 (* rounding through f64 is only claimed correct for integers below 2^53 held in
    Small limbs (the everyday case); everything else is in the known class *)
-Definition known_C10_float (q : brat) : bool :=
+Definition known_C10_float_old (q : brat) : bool :=
   negb (is_small (rnum q) && is_small (rden q) && (dval q =? 1) && (nval q <? 2 ^ 53)).
